@@ -14,6 +14,12 @@ PREFIXES = ["a", "A", "ab", "aB", "abc", "b", "aZ", "az", "0", "z", "ABCDEFGHIJK
 # last bytes the descending search cannot increment: 'Z' (pool), '@' and 0xFF (the two tables below); C11_autocomplete excludes exactly these
 SPECIAL = [["a@", "a_a", "a_b", "aa"], ["a", "ab", "a\xff"]]
 LONG = ["ABCDEFGHIJKLM", "abcdefghijklmnop"]                          # 13 and 16 bytes
+# classes for the by-class listing walks (Title[:5], fifth byte blank): 0..4 characters padded with blanks to 4 columns,
+# sharing prefixes ("N" < "NA" < "NB" < "NBA" < "NBAB"), one padded with NULs instead of blanks, and Big5-like classes of high
+# bytes (two columns per character; the second one exercises '-' and '_' of the cursor's URL-safe base64)
+WCLASSES = ["N    ", "NB   ", "NBA  ", "NBAB ", "NA   ", "A    ", "     ", "NB\0\0 ", "\xa4\xdf\xb1\x6f ", "\xa4\xdf   ", "\xfb\xef\xbf  "]
+WPAIRS = [("NB   ", "NBA  "), ("N    ", "NB   "), ("NB   ", "NB\0\0 "), ("NBA  ", "NBAB "), ("     ", "A    "), ("NA   ", "NB   "),
+          ("\xa4\xdf   ", "\xa4\xdf\xb1\x6f ")]
 
 
 def low(s):
@@ -89,35 +95,54 @@ def main():
         return "%s|%s" % (names_wire(t[0]), titles_wire(t[1]))
 
     # ---------------------------------------------------------------- load every table, read back both sorted indexes
-    l0 = ["0|" + tb(t) for t in tables]
-    o0 = vf.run_impl(impl, "C11", l0)
-    c.count(len(l0), "reload+sort")
-    sorted_of = []
-    for t, l, o in zip(tables, l0, o0):
-        names, titles = t
-        n = len(names)
-        f = o.split()
-        ok = f[0] == "0" and int(f[1]) == n and len(f) == 2 + 2 * n
-        by_name = [int(x) for x in f[2:2 + n]] if ok else []
-        by_class = [int(x) for x in f[2 + n:2 + 2 * n]] if ok else []
-        if ok:
-            ok = sorted(by_name) == list(range(n)) and sorted(by_class) == list(range(n))
-            for a, b in zip(by_name, by_name[1:]):
-                ok = ok and casecmp(names[a], names[b]) <= 0
-            for a, b in zip(by_class, by_class[1:]):
-                ka = (titles[a][:4].split("\0")[0].encode("latin-1"), low(names[a]))
-                kb = (titles[b][:4].split("\0")[0].encode("latin-1"), low(names[b]))
-                ok = ok and ka <= kb
-        if not ok:
-            c.violation("bsorted-not-a-sorted-permutation", "after ReloadBCache of %r the sorted indexes are %s" % (names, o), {"cases": [l], "got": o})
-        sorted_of.append((by_name, by_class))
-        c.nontrivial(("table", tuple(names)))
+    def load_tables(tbls):
+        l0 = ["0|" + tb(t) for t in tbls]
+        o0 = vf.run_impl(impl, "C11", l0)
+        c.count(len(l0), "reload+sort")
+        res = []
+        for t, l, o in zip(tbls, l0, o0):
+            names, titles = t
+            n = len(names)
+            f = o.split()
+            ok = f[0] == "0" and int(f[1]) == n and len(f) == 2 + 2 * n
+            by_name = [int(x) for x in f[2:2 + n]] if ok else []
+            by_class = [int(x) for x in f[2 + n:2 + 2 * n]] if ok else []
+            if ok:
+                ok = sorted(by_name) == list(range(n)) and sorted(by_class) == list(range(n))
+                for a, b in zip(by_name, by_name[1:]):
+                    ok = ok and casecmp(names[a], names[b]) <= 0
+                for a, b in zip(by_class, by_class[1:]):
+                    ka = (titles[a][:4].split("\0")[0].encode("latin-1"), low(names[a]))
+                    kb = (titles[b][:4].split("\0")[0].encode("latin-1"), low(names[b]))
+                    ok = ok and ka <= kb
+            if not ok:
+                c.violation("bsorted-not-a-sorted-permutation", "after ReloadBCache of %r the sorted indexes are %s" % (names, o), {"cases": [l], "got": o})
+                by_name, by_class = [], []
+            res.append((by_name, by_class))
+            c.nontrivial(("table", tuple(names), tuple(titles)))
+        return res
+
+    sorted_of = load_tables(tables)
 
     # ---------------------------------------------------------------- queries
     impl_lines, model_lines, meta = [], [], []
 
     def add(kind, t, so, il, ml, info):
         impl_lines.append(il); model_lines.append(ml); meta.append((kind, t, so, info))
+
+    def add_class_walks(t, by_class):
+        names, titles = t
+        n = len(names)
+        if len(by_class) != n:
+            return
+        if any("@" in nm for nm in names):      # the cursor is base64(class)@name: '@' cannot occur in a valid board name
+            return
+        sc_n = [names[i] for i in by_class]
+        sc_t = [titles[i] for i in by_class]
+        T = tb(t)
+        for k in (range(1, n + 2) if n <= NMAX else [1, 2, 3, n]):
+            for asc in (1, 0):
+                add("cwalk", t, (sc_t, sc_n), "7|%s|%d %d" % (T, k, asc), "7|%s|%s|%d %d" % (titles_wire(sc_t), names_wire(sc_n), k, asc), (k, asc))
 
     for t, (by_name, by_class) in zip(tables, sorted_of):
         names, titles = t
@@ -151,6 +176,24 @@ def main():
             for kw in ["a", "ab", "A"]:
                 for k in (1, 2):
                     add("acwalk", t, sn, "6|%s|%s|%d 1" % (T, toks(kw), k), None, (kw, k, 1))
+        add_class_walks(t, by_class)
+
+    # ---------------------------------------------------------------- by-class listing walks: the same name tables with
+    # short, blank-padded, prefix-sharing classes (three class assignments per table)
+    ctables, cseen = [], set()
+    for ti, (names, _) in enumerate(tables):
+        pair = WPAIRS[rng.randrange(len(WPAIRS))]
+        for titles in ([WCLASSES[ti % len(WCLASSES)]] * len(names),
+                       [rng.choice(pair) for _ in names],
+                       [rng.choice(WCLASSES) for _ in names]):
+            ct = (names, ["\0\0\0\0\0" if nm == "" else tt for nm, tt in zip(names, titles)])
+            if (tuple(ct[0]), tuple(ct[1])) not in cseen:
+                cseen.add((tuple(ct[0]), tuple(ct[1])))
+                ctables.append(ct)
+    c.cov["exhaustive_parts"].append("by-class listing walks: every table above as it is + with 3 assignments of classes of 0..4 characters "
+                                     "padded with blanks/NULs and sharing prefixes (%d tables), every page size 1..n+1, both directions" % len(ctables))
+    for t, (by_name, by_class) in zip(ctables, load_tables(ctables)):
+        add_class_walks(t, by_class)
 
     io = vf.run_impl(impl, "C11", impl_lines, deadline_ms=20000)
     if model:
@@ -171,6 +214,27 @@ def main():
                 return i + 1
         return -1
 
+    def cwalk_want(so, info):
+        st, sn = so
+        k, asc = info
+        vis = [i + 1 for i, nm in enumerate(sn) if nm]
+        if not asc:
+            vis = vis[::-1]
+        return "0 %d%s" % (max(1, -(-len(vis) // k)), "".join(" %d" % v for v in vis))
+
+    def cwalk_key(so, info):
+        """signature of a failing by-class walk: the two known input classes first"""
+        st, sn = so
+        d = "-asc" if info[1] else "-desc"
+        if any(x[4] not in (" ", "\0") for x in st):
+            return "find-by-class-nonblank-fifth-title-byte"   # cursor class = Title[:4], searched against Title[:5]
+        keys = [(x[:4].split("\0")[0], low(nm)) for x, nm in zip(st, sn) if nm]
+        if len(set(keys)) < len(keys):
+            return "listing-case-twins"                        # two boards of one class with names equal up to case
+        if any(x[:4].split("\0")[0].endswith(" ") for x, nm in zip(st, sn) if nm):
+            return "listing-by-class-padded-class" + d         # a class shorter than 4 columns, padded with blanks
+        return "listing-by-class" + d
+
     sampled = set()
     for l, o, (kind, t, so, info) in zip(impl_lines, io, meta):
         names, titles = t
@@ -181,6 +245,12 @@ def main():
                 key = "autocomplete-crash-prefix-length"
             elif kind in ("walk", "acwalk") and len({low(x) for x in names}) < len(names):
                 key = "listing-case-twins"     # the next-cursor (a name) resolves to the other twin: the walk repeats / never ends
+            elif kind == "cwalk":
+                want = cwalk_want(so, info)
+                c.violation(cwalk_key(so, info), "by-class listing (page size %d, %s) over the by-class order %r %s; every visible board once in order is [status pages positions...] = %s" % (
+                    info[0], "asc" if info[1] else "desc", [(x[:4], nm) for x, nm in zip(*so)],
+                    "panics" if f[0] == "1" else "is not over after 2n+3 pages (the next-cursor does not advance)", want), {"cases": [l], "expected": want, "got": o})
+                continue
             else:
                 key = "%s-%s" % (kind, "crash" if f[0] == "1" else "hang")
             c.violation(key, "%s(%r) on table %r: %s" % (kind, info, names, "panics" if f[0] == "1" else "does not return"), {"cases": [l], "got": o})
@@ -265,13 +335,22 @@ def main():
                     "by-name" if kind == "walk" else "auto-complete", k, "asc" if asc else "desc", "" if kind == "walk" else ", prefix %r" % kw, sn, o, want),
                     {"cases": [l], "expected": want, "got": o})
 
+        elif kind == "cwalk":
+            st, sn = so
+            k, asc = info
+            want = cwalk_want(so, info)
+            if o.strip() != want:
+                c.violation(cwalk_key(so, info), "by-class listing (page size %d, %s) over the by-class order %r: [status pages positions...] = %s, every visible board once in order is %s" % (
+                    k, "asc" if asc else "desc", [(x[:4], nm) for x, nm in zip(st, sn)], o, want), {"cases": [l], "expected": want, "got": o})
+
     c.finish(rule="tables: every ordered selection of <= %d names from the pool %r + subsets of %d in PRNG(seed) orders + random tables of 6..59 boards; "
                   "queries: every pool name, probes below/above/absent/other case; classes incl. one with a non-blank fifth title byte; prefixes incl. empty, 12, 13 and 16 bytes, and last bytes 'Z', '@', 0xFF (+ two tables on which the latter two fail); "
-                  "both directions; page sizes 1..n+1; non-trivial = distinct (table, operation, query) that returned" % (NALL, POOL, NMAX),
+                  "both directions; page sizes 1..n+1; by-class listing walks on every table and on each with 3 PRNG(seed) assignments of the classes %r; non-trivial = distinct (table, operation, query) that returned" % (NALL, POOL, NMAX, WCLASSES),
              assumptions=["the table is quiescent during lookups (BBusyState sleep-and-proceed is not a lock and is not modelled)",
                           "sort.Sort is library code: its output is read back from shared memory and checked to be a sorted permutation on every table, not re-proved",
                           "listings are walked as SYSOP (every non-vacated, non-group board visible); other visibility predicates are not exercised",
-                          "the empty board name (a vacated slot) is not used as a query"])
+                          "the empty board name (a vacated slot) is not used as a query",
+                          "by-class listing walks skip tables with '@' in a board name: the cursor is base64(class)@name and '@' cannot occur in a valid board name (BoardID_t.IsValid)"])
 
 
 if __name__ == "__main__":
